@@ -57,6 +57,7 @@ def make_config(seed, tier="quick", corrupt=False, index=0):
         cfg["read_cap"] = 0  # (quadratic: every short read re-scans a 12 KB partial frame)
     # the stream is padded (marker-free bytes behind the last frame) to a multiple of the reader's 4096-byte read
     # size and delivered at once: the last read before the line goes idle is a completely filled one
+    cfg["pipeline_logon"] = (not corrupt) and rc.random() < 0.1
     cfg["align4096"] = (not corrupt) and rc.random() < 0.08
     if cfg["align4096"]:
         cfg["chunk_law"] = "all"
@@ -118,6 +119,12 @@ class StreamSim(PeerSim):
         if kind == "connected" and self.eut_role == "acceptor" and getattr(self, "logon_pending", False):
             self.logon_pending = False
             self.peer.send("A", [("98", "0"), ("108", self.cfg["hb"])], spec={"logon": 1})
+            kind = "logon_sent"
+        if kind == "logon_sent" and self.cfg.get("pipeline_logon") and not self.burst_done and not self.cfg["corrupt"]:
+            # the peer does not wait for the Logon exchange to finish: its stream follows its Logon in the same
+            # write / read (an acceptor answering Logon + queued reports back to back does exactly that)
+            self.fault("stream_pipelined_behind_the_logon")
+            self.fire_family(["burst"])
 
     def ep_event(self, ep, kind, *args):
         if kind == "on_disconnect":
